@@ -440,7 +440,7 @@ pub fn run(args: &Args) {
                 } else {
                     "other"
                 };
-                sum.violation(ImplViolation { key: format!("vm-panic:{}", class), input: format!("{} {}", origin, one_line), expected: "a BASIC-level outcome".into(), observed: m.chars().take(200).collect() });
+                sum.violation(ImplViolation { key: format!("vm-panic:{}:{}", class, last_error_kind(src, &r)), input: format!("{} {}", origin, one_line), expected: "a BASIC-level outcome".into(), observed: m.chars().take(200).collect() });
                 continue;
             }
             End::Budget => {
@@ -486,11 +486,50 @@ pub fn run(args: &Args) {
         }
         sum.count("scenarios");
     }
+    // ---- 3b. an error while the arguments of (nested) calls are being collected, handled by a handler
+    // that ends in RESUME NEXT: the statement is abandoned, everything else goes on - in the main
+    // module, in a SUB and in a FUNCTION, for calls nested one to three deep, as a statement and
+    // inside an expression
+    for depth in 1..=3usize {
+        for place in 0..3 {
+            for form in 0..3 {
+                let mut call = String::from("3 / Z%");
+                for d in 0..depth {
+                    call = if d % 2 == 0 { format!("Add%({}, {})", d + 1, call) } else { format!("Add%({}, {})", call, d + 1) };
+                }
+                let stmt = match form {
+                    0 => format!("T% = {}", call),
+                    1 => format!("PRINT {}", call),
+                    _ => format!("Show {}", call),
+                };
+                let body = format!("Z% = 0\nT% = 5\n{}\nPRINT \"after\"; T%\n", stmt);
+                let (main, subs) = match place {
+                    0 => (body.clone(), String::new()),
+                    1 => ("Work\n".to_string(), format!("SUB Work\n{}END SUB\n", body)),
+                    _ => ("Q% = Fw%\n".to_string(), format!("FUNCTION Fw%\n{}Fw% = 1\nEND FUNCTION\n", body)),
+                };
+                let src = format!("ON ERROR GOTO H\nR% = 7\n{}PRINT \"back\"; R%\nEND\nH:\nPRINT \"err\"\nRESUME NEXT\n{}SUB Show (X%)\nPRINT \"show\"; X%\nEND SUB\nFUNCTION Add% (A%, B%)\nAdd% = A% + B%\nEND FUNCTION\n", main, subs);
+                let expected = "err\r\nafter 5 \r\nback 7 \r\n";
+                evaluations += 1;
+                sum.count("scenarios_error_in_call_arguments");
+                let name = format!("error-in-call-arguments:depth{}:{}:{}", depth, ["main", "sub", "function"][place], ["assignment", "print", "sub-call"][form]);
+                match run_program(&src, &RunOpts { budget: 20_000, ..Default::default() }) {
+                    Outcome::Ran(r) => {
+                        let out = String::from_utf8_lossy(&r.stdout).to_string();
+                        if out != expected || r.end != End::Ok {
+                            sum.violation(ImplViolation { key: format!("scenario:{}", name), input: src.replace('\n', " | "), expected: format!("{:?} then normal end", expected), observed: format!("{:?} then {}", out, end_text(&r.end)) });
+                        }
+                    }
+                    other => sum.violation(ImplViolation { key: format!("scenario:{}", name), input: src.replace('\n', " | "), expected: "accepted".into(), observed: format!("{:?}", other).chars().take(200).collect() }),
+                }
+            }
+        }
+    }
     // ---- 4. statements that fail as a whole under ON ERROR RESUME NEXT are skipped, nothing else changes
     error_skip(&mut rng, if args.thorough() { 1500 } else { 250 }, args.thorough(), &mut sum, &mut evaluations);
     sum.write(
         &args.out,
         evaluations,
-        "value level: the real NearestStatementFinder (hook verif_nearest_statement) on random ascending address lists and addresses vs Control.find_current / find_next. Run level: generated control programs (labels, backward/forward GOTO, nested GOSUB, failing statements of six kinds at top level / last in a loop body / last in an IF or CASE block / last in a SUB / inside GOSUB routines, handlers ON ERROR GOTO / RESUME NEXT / GOTO 0 switched in all orders, RESUME / RESUME NEXT / RESUME label), procedural programs with error handlers, repository programs using GOTO/GOSUB/ON ERROR; for each run every control transfer (from the observer trace incl. the error events) is replayed by Control.check_control in Coq. Scenarios: 20 programs whose output and end are known by construction. Error skipping: core programs (IF/SELECT/FOR/WHILE/DO nests that run without error) with statements that fail as a whole (E9% = 1 / Z9%) inserted at the end of blocks and at random places under ON ERROR RESUME NEXT: same output, normal end and the same stack depths at the end as the program without them. Non-trivial = distinct event sequences.",
+        "value level: the real NearestStatementFinder (hook verif_nearest_statement) on random ascending address lists and addresses vs Control.find_current / find_next. Run level: generated control programs (labels, backward/forward GOTO, nested GOSUB, failing statements of six kinds at top level / last in a loop body / last in an IF or CASE block / last in a SUB / inside GOSUB routines, handlers ON ERROR GOTO / RESUME NEXT / GOTO 0 switched in all orders, RESUME / RESUME NEXT / RESUME label), procedural programs with error handlers, repository programs using GOTO/GOSUB/ON ERROR; for each run every control transfer (from the observer trace incl. the error events) is replayed by Control.check_control in Coq. Scenarios: 20 programs whose output and end are known by construction, and 27 programs with an error while the arguments of calls nested one to three deep are being collected (main module, SUB, FUNCTION; assignment, PRINT, SUB call) under a handler that ends in RESUME NEXT. Error skipping: core programs (IF/SELECT/FOR/WHILE/DO nests that run without error) with statements that fail as a whole (E9% = 1 / Z9%) inserted at the end of blocks and at random places under ON ERROR RESUME NEXT: same output, normal end and the same stack depths at the end as the program without them. Non-trivial = distinct event sequences.",
     );
 }
